@@ -17,6 +17,11 @@ HasSuffix(s, suf) == Len(s) > Len(suf) /\ SubSeq(s, Len(s) - Len(suf) + 1, Len(s
 (* counter files live in local/ and are named *.v1.count (format version 1); *)
 (* reports are the *.json files of local/ (local.<week>.json kept for the    *)
 (* user, <week>.json waiting for upload) and of upload/ (<week>.json sent)   *)
+(* Only files are data.  A NON-EMPTY directory whose name happens to end in    *)
+(* .json or .v1.count is neither a counter file nor a report: it and everything *)
+(* below it must stay, and it must not keep clean from removing the real data   *)
+(* files around it.  (An EMPTY directory with such a name is not generated: the *)
+(* property is silent on whether removing it is right.)                         *)
 IsCounterFile(e) == e.kind = "file" /\ e.loc = "local" /\ HasSuffix(e.name, ".v1.count")
 IsReport(e) == e.kind = "file" /\ e.loc \in {"local", "upload"} /\ HasSuffix(e.name, ".json")
 IsData(e) == IsCounterFile(e) \/ IsReport(e)
@@ -40,6 +45,18 @@ K_CleanNothingElse(c, s, t, modeSame) ==
     c = "clean" => /\ \A e \in s.tree : ~IsData(e) => e \in t.tree
                    /\ t.tree \subseteq s.tree
                    /\ modeSame
+(* in particular a non-empty directory of local/ or upload/ whose name looks    *)
+(* like a data file stays with all that is below it                             *)
+NameLikeData(e) == \/ e.loc = "local" /\ HasSuffix(e.name, ".v1.count")
+                   \/ e.loc \in {"local", "upload"} /\ HasSuffix(e.name, ".json")
+PathOf(e) == IF e.loc = "root" THEN e.name ELSE e.loc \o "/" \o e.name
+HasPrefix(x, pre) == Len(x) >= Len(pre) /\ SubSeq(x, 1, Len(pre)) = pre
+Under(f, e) == f.loc = PathOf(e) \/ HasPrefix(f.loc, PathOf(e) \o "/")
+NonEmptyDataNamedDir(tree, e) == e.kind = "dir" /\ NameLikeData(e) /\ \E f \in tree : f.loc = PathOf(e)
+K_CleanKeepsNonEmptyDirs(c, s, t) ==
+    c = "clean" => \A e \in s.tree : NonEmptyDataNamedDir(s.tree, e) =>
+                      /\ e \in t.tree
+                      /\ \A f \in s.tree : Under(f, e) => f \in t.tree
 (* "on, local and off change only the mode file"                                *)
 K_ModeOnlyMode(c, s, t) == c \in ValidModes => t.tree = s.tree
 (* "leave it untouched when the mode is already the requested one"              *)
